@@ -36,7 +36,7 @@ CLAIMED = {
             "5/C10", "oxv"),
     "C11": ("proptest-generated bound settings x wild states x sampler seeds vs. reference membership, canonical-form and idempotence oracles",
             "Constructible bound settings of all six kinds (half-bounded / one-ulp / huge boxes, SO2 intervals inside/touching/outside [-pi,pi], cones of radius 0..pi and beyond, negated centres) x states inside / on the boundary +-ulp / far outside / non-canonical / non-unit / zero x seeds: sample => satisfies + reference membership (or the documented unbounded error), enforce => satisfies, canonical, idempotent, identity on satisfying canonical states; every call under catch_unwind.",
-            "Trusted: reference membership; 4-ulp comparison; one known finding (SO3 containment has no tolerance) excluded only for unit states within 2e-6 rad of the cone boundary.",
+            "Trusted: reference membership; 4-ulp comparison (RV: max(4 ulp, the documented EPSILON tolerance); angles compared as configurations). No known finding is excluded any more (F9 was repaired).",
             "5/C11", "oxv"),
     "C12": ("exhaustive lattice of constructor arguments (bound pairs over 18 special values incl. NaN/inf, lengths, radii, angles, quaternion magnitudes) + random fill-in vs. reference well-formedness predicate in both directions",
             "Every constructor of the five validated spaces and the three canonicalising state constructors over an exhaustive lattice of special arguments (about 1e4 tuples) plus 1e5 / 2e6 random ones: ill-formed => the documented error with the right payload; well-formed and in range => accepted and stored verbatim; every accepted space is then sampled, enforced, checked and asked for its resolution under catch_unwind.",
